@@ -42,7 +42,7 @@ def mc(name, c, w, cap, fix, threshold=70, prefer=70):
 RACE_KNOWN_FUNCS = [
     # lazily filled, unsynchronised caches (see known_findings.json C11-F2)
     "validateCache", "resetCache", "(*IndividualNode).Families", "(*IndividualNode).Spouses", "(*IndividualNode).UniqueIdentifiers",
-    "(*FamilyNode).Husband", "(*FamilyNode).Wife", "(*DateNode).DateRange", "(*Document).Families",
+    "(*FamilyNode).Husband", "(*FamilyNode).Wife", "(*Document).Families",
 ]
 
 
